@@ -4,6 +4,7 @@ import (
 	"bytes"
 	_ "embed"
 	"encoding/json"
+	"fmt"
 	"regexp/syntax"
 	"strings"
 	"unicode/utf8"
@@ -233,6 +234,51 @@ func MutatePattern(r *RNG, p string) string {
 			continue
 		}
 		if _, err := syntax.Parse(q, syntax.Perl); err == nil {
+			return q
+		}
+	}
+	return p
+}
+
+// MutateAST applies one STRUCTURAL edit at a random node of the parsed pattern: the node is wrapped in a unary operator
+// (capture, *, +, ?, counted repeats, lazy forms, (?i:)) and/or a look-around assertion is put in front of or behind it INSIDE
+// the wrapper.  This is the family the strategy guards (hasWordBoundary, hasNonGreedyQuantifier, canMatchEmpty, isSafeFor…) must
+// see through: an assertion or a lazy quantifier below every kind of operator.  The result is checked to parse.
+func MutateAST(r *RNG, p string) string {
+	const ph = `\x{e000}`
+	for try := 0; try < 12; try++ {
+		re, err := syntax.Parse(p, syntax.Perl)
+		if err != nil {
+			return p
+		}
+		var nodes []*syntax.Regexp
+		var walk func(n *syntax.Regexp)
+		walk = func(n *syntax.Regexp) {
+			nodes = append(nodes, n)
+			for _, c := range n.Sub {
+				walk(c)
+			}
+		}
+		walk(re)
+		n := nodes[r.Intn(len(nodes))]
+		sub := n.String()
+		*n = syntax.Regexp{Op: syntax.OpLiteral, Rune: []rune{0xe000}}
+		full := re.String()
+		if !strings.Contains(full, ph) {
+			continue
+		}
+		inner := "(?:" + sub + ")"
+		switch r.Intn(4) {
+		case 0:
+			inner = r.Pick(looks) + inner
+		case 1:
+			inner = inner + r.Pick(looks)
+		case 2:
+			inner = "(?:" + r.Pick(looks) + inner + r.Pick([]string{"", "", r.Pick(litASCII)}) + ")"
+		}
+		wrap := r.Pick([]string{"%s", "(%s)", "(?:%s)*", "(?:%s)+", "(?:%s)?", "(?:%s){2}", "(?:%s){1,3}", "(?:%s){2,}", "(?:%s){1,3}?", "(?:%s)*?", "(?:%s)+?", "(?i:%s)", "(?:%s){0,2}"})
+		q := strings.Replace(full, ph, "(?:"+fmt.Sprintf(wrap, "(?:"+inner+")")+")", 1)
+		if _, err := syntax.Parse(q, syntax.Perl); err == nil && q != p {
 			return q
 		}
 	}
